@@ -342,8 +342,10 @@ def builtin_items(ctx, tab):
             pool = [reps] * 3
         for combo in itertools.product(*pool):
             args = [c[1] for c in combo]
-            if kind == "stmt" and "func" in [c[0] for c in combo] and name in ("typed-local",):
-                pass
+            if name == "assign-local-indexed" and args[1] in HUGE:
+                # `t[2^63-1] = x` auto-extends an array (a scalar base is first replaced by an array): an allocation request, like a pad width
+                ctx.excluded["array index above 10^6 in an auto-extending assignment"] += 1
+                continue
             yield ((name,) + tuple(args), any(c[0] not in ("int", "float") for c in combo), (kind, mk(args)))
 
 
@@ -803,7 +805,11 @@ def judge_run(ctx, case, res, rerun, what, insize):
         ctx.label("slow-once")
         return "slow"
     if res.capped:
-        ctx.fail(case, "%s: output exceeds 256 MiB for a %d-byte input" % (what, insize), {"flood": True})
+        if insize > 16 << 10:
+            # e.g. a self-join or nest --explode of 3000 identical lines is legitimately quadratic in records
+            ctx.label("output-above-the-cap-on-input-above-16KiB (not judged)")
+            return "slow"
+        ctx.fail(case, "%s: output exceeds the cap for a %d-byte input" % (what, insize), {"flood": True})
     if bad_exit(res):
         ctx.fail(case, "%s: exit status %s with neither output nor a diagnostic" % (what, res.rc), {"silent": True})
     if res.rc != 0 and b"mlr" not in res.err:
